@@ -384,15 +384,41 @@ fn aim_batch(seed: u64, policy: &str) -> Script {
 /// Entries that end exactly at, or just before, block and file ends.
 fn aim_block(seed: u64, policy: &str) -> Script {
     let mut rng = Rng(seed ^ 0xD4);
-    let queues = names(&mut rng, 2);
+    let queues = names(&mut rng, 3);
     let mut live = Live::new(format!("aim-block-{seed}"), policy, queues, seed);
     live.push(Step::Create { q: 0 });
     live.push(Step::Create { q: 1 });
+    let mut q2_exists = false;
     for _ in 0..4 + live.rng.below(6) {
-        let gap = live.rng.below(10) as usize;
+        // up to a little more than the size of a create / delete / truncate entry before the end
+        let gap = if live.rng.chance(50) { live.rng.below(10) } else { live.rng.below(50) } as usize;
         let to_file = live.rng.chance(35);
         live.fill_to(0, gap, to_file);
-        match live.rng.below(6) {
+        match live.rng.below(9) {
+            // entries that are not appends, each followed (mostly) by a restart and a write
+            6 | 7 => {
+                if q2_exists {
+                    live.push(Step::Delete { q: 2 });
+                } else {
+                    live.push(Step::Create { q: 2 });
+                }
+                q2_exists = !q2_exists;
+                if live.rng.chance(60) {
+                    live.push(Step::Restart);
+                }
+                let payload = live.payload(9);
+                live.push(Step::Append { q: 1, pos: None, batch: vec![payload] });
+            }
+            8 => {
+                if let Some(last) = live.last_position(1) {
+                    live.push(Step::Truncate { q: 1, p: last });
+                }
+                if live.rng.chance(60) {
+                    live.push(Step::Restart);
+                }
+                let payload = live.payload(9);
+                live.push(Step::Append { q: 1, pos: None, batch: vec![payload] });
+            }
             0 => {
                 let payload = live.payload(0);
                 live.push(Step::Append { q: 1, pos: None, batch: vec![payload] });
